@@ -370,6 +370,50 @@ def rule_reroute_lists(chk, prog):
         "inputs cleared", fn.where(), "" if len(clr) == 2 else "registered hyperedges are not cleared after rerouting (they would be rerouted again)")
 
 
+def rule_results_readable(chk, prog):
+    """After a transaction the inputs are cleared (REROUTE-LISTS `inputs cleared`) and the results stay: the accessor must serve every one."""
+    from ..microai.interp import MapVal
+    r = chk.rule("RESULTS-READABLE", "HyperedgeRerouter::newAndDeletedObjectLists(index) interpreted on the state performRerouting leaves "
+                 "behind (registered inputs m_terminals_vector / m_root_junction_vector cleared, the four result vectors holding one list "
+                 "per processed hyperedge, 3 hyperedges): for EVERY index it returns without a failing assertion, and the four lists it "
+                 "returns are the ones stored for that index -- the client cannot learn which objects replaced a hyperedge otherwise", floor=3)
+    fn = prog.fn("Avoid::HyperedgeRerouter::newAndDeletedObjectLists")
+    fields = (("m_new_junctions_vector", "newJunctionList", "Avoid::JunctionRef"), ("m_deleted_junctions_vector", "deletedJunctionList", "Avoid::JunctionRef"),
+              ("m_new_connectors_vector", "newConnectorList", "Avoid::ConnRef"), ("m_deleted_connectors_vector", "deletedConnectorList", "Avoid::ConnRef"))
+    n_h = 3
+    for idx in range(n_h):
+        rr = default_obj(prog, "Avoid::HyperedgeRerouter", {})
+        rr.f["m_terminals_vector"] = Vec([], "Avoid::ConnEndList")
+        rr.f["m_root_junction_vector"] = Vec([], "Avoid::JunctionRef *")
+        rr.f["m_terminal_vertices_vector"] = Vec([], "Avoid::VertexSet")
+        want = {}
+        for fld, res, t in fields:
+            outer = []
+            for h in range(n_h):
+                objs = [Obj(t, {"_name": "%s[%d].%d" % (fld, h, k)}) for k in range(1 + (h + len(fld)) % 2)]
+                outer.append(Vec(objs, t + " *"))
+                if h == idx:
+                    want[res] = objs
+            rr.f[fld] = Vec(outer, "std::list<%s *>" % t)
+        it = Interp(prog, Oracle([]), max_steps=20000)
+        r.count()
+        inst = "index %d of %d processed hyperedges" % (idx, n_h)
+        try:
+            out = it.call(fn, rr, None, None, arg_values=[idx])
+        except Unsupported as e:
+            raise AnalysisBroken("newAndDeletedObjectLists outside the interpreter subset: %s" % e)
+        except AssertFail as e:
+            r.bad(inst, fn.where(), "assertion fails although the results of this hyperedge are stored: %s" % e)
+            continue
+        bad = None
+        for fld, res, t in fields:
+            got = out.f.get(res)
+            items = got.items if got is not None else None
+            if items is None or len(items) != len(want[res]) or any(a is not b for a, b in zip(items, want[res])):
+                bad = bad or "%s is not %s[%d]" % (res, fld, idx)
+        (r.bad if bad else r.ok)(inst, fn.where(), bad or "")
+
+
 def rule_object_lists(chk, prog):
     r = chk.rule("OBJECT-LISTS", "bookkeeping of created / removed hyperedge objects: HyperedgeRerouter::findAttachedObjects records every "
                  "connector and every junction it visits as deleted (on every path); in HyperedgeImprover every `new ConnRef` / `new "
@@ -499,6 +543,12 @@ _ZL_TREES = [
     ("bend moved onto its terminal",
      {"nodes": {"J": ("J", (0, 0)), "n": ("N", (3, 0)), "a": ("T", (3, 0)), "b": ("T", (5, 5)), "c": ("T", (0, 5))},
       "edges": [("J", "n"), ("n", "a"), ("J", "b"), ("J", "c")]}, [["J-n", "n-a"], ["J-b"], ["J-c"]]),
+    ("bend moved onto its terminal, which is the connector's SOURCE end",
+     {"nodes": {"J": ("J", (0, 0)), "n": ("N", (3, 0)), "a": ("S", (3, 0)), "b": ("T", (5, 5)), "c": ("S", (0, 5))},
+      "edges": [("J", "n"), ("n", "a"), ("J", "b"), ("J", "c")]}, [["J-n", "n-a"], ["J-b"], ["J-c"]]),
+    ("the same, reached from the terminal's side first (edge list of the bend starts with the zero-length edge)",
+     {"nodes": {"J": ("J", (0, 0)), "a": ("S", (3, 0)), "n": ("N", (3, 0)), "b": ("T", (5, 5)), "c": ("T", (0, 5))},
+      "edges": [("n", "a"), ("J", "n"), ("J", "b"), ("J", "c")]}, [["J-n", "n-a"], ["J-b"], ["J-c"]]),
     ("junction, bend and terminal all at one point",
      {"nodes": {"J": ("J", (0, 0)), "n": ("N", (0, 0)), "a": ("T", (0, 0)), "b": ("T", (5, 5)), "c": ("T", (0, 5))},
       "edges": [("J", "n"), ("n", "a"), ("J", "b"), ("J", "c")]}, [["J-n", "n-a"], ["J-b"], ["J-c"]]),
@@ -544,7 +594,9 @@ def _tree_state(root):
         seen.add(id(n))
         es = n.f["edges"].items
         if len(es) == 1:
-            out.append((n.f["point"].f["x"], n.f["point"].f["y"]))
+            fv = n.f.get("finalVertex")
+            out.append((n.f["point"].f["x"], n.f["point"].f["y"], bool(n.f.get("isConnectorSource")),
+                        fv.f.get("_name") if fv is not None else None))
         for e in es:
             live.append(e.f["conn"])
             for end in (e.f["ends"].f["first"], e.f["ends"].f["second"]):
@@ -577,7 +629,9 @@ def _conservation(conns, conn_edges, imp, before_leaves, root):
             return ("the connector of edge(s) %s owns no edge of the tree any more and is not recorded as deleted: its route and its junction end "
                     "are never written back again" % conn_edges[c.f["_id"]])
     if after_leaves != before_leaves:
-        return "the tree's terminals were at %s, afterwards at %s" % ([(str(a), str(b)) for a, b in before_leaves], [(str(a), str(b)) for a, b in after_leaves])
+        fmt = lambda ls: ["(%s,%s)%s%s" % (a, b, " source" if s_ else "", " " + v if v else "") for a, b, s_, v in ls]
+        return ("the tree's terminals (position, source-end flag, end vertex) were %s, afterwards %s -- the route of a connector whose terminal "
+                "lost its role is written back to front / without its end" % (fmt(before_leaves), fmt(after_leaves)))
     # a connector is one junction-free path: along the tree its identity changes at junctions only
     seen, stack = set(), [root]
     while stack:
@@ -859,4 +913,5 @@ def run(chk):
     chk.guard(rule_merge_far_end, chk, prog)
     chk.guard(rule_execute_coverage, chk, prog)
     chk.guard(rule_reroute_lists, chk, prog)
+    chk.guard(rule_results_readable, chk, prog)
     chk.guard(rule_object_lists, chk, prog)
